@@ -57,8 +57,24 @@ func runSimple1Bubble(sc scenario) result {
 	pos := 5 + n
 	m := sc.int(pos)
 	dv := priority.FairDivider
-	if kind != 0 {
+	if kind%2 != 0 {
 		dv = priority.RateDivider
+	}
+	if kind >= 2 {
+		// a divider that breaks the sum rule from its k-th call on (k = 3 + (kind-2)/2): the discipline ends by itself
+		base, faultFrom, callNo := dv, 3+(kind-2)/2, 0
+		var dmu sync.Mutex
+		dv = func(priorities []uint, dividend uint, distribution map[uint]uint) map[uint]uint {
+			dmu.Lock()
+			callNo++
+			bad := callNo >= faultFrom
+			dmu.Unlock()
+			out := base(priorities, dividend, distribution)
+			if bad && len(priorities) != 0 && out != nil {
+				out[priorities[0]]++
+			}
+			return out
+		}
 	}
 	var (
 		mu          sync.Mutex
